@@ -443,7 +443,9 @@ class Engine(ExprEval, NumpyModel, NumpyFuncs):
             if isinstance(v, Opaque) and v.tag in ("series", "frame") and isinstance(v.payload, (Arr, Lst)):
                 self.note_assumption("pandas: len(series / frame / index) is the number of rows")
                 return v.payload.shape[0] if isinstance(v.payload, Arr) else v.payload.length
-            raise Unsupported(f"len of {v!r} (TypeError in python)")
+            if v is NONE or isinstance(v, (bool, int, float, Fraction)) or (is_numv(v) and not isinstance(v, (Arr, Lst))):
+                raise Unsupported(f"len of {v!r} (TypeError in python)")
+            raise Unsupported(f"len of {v!r}: value outside the modelled subset")
         if name == "int":
             v = args[0]
             if isinstance(v, OptV) and v.nanlike:
